@@ -1,10 +1,13 @@
 #!/bin/bash
-# apply a seeded patch to /repo, run the given checks (quick), undo the patch. usage: seed_run.sh <patch> <id>...
-P=$1; shift
-cd /repo && git apply $P || { echo "patch does not apply"; exit 2; }
-cd /verif
+# apply a seeded patch to a scratch worktree of /repo, run the given checks (quick) against it (VERIF_REPO), remove the worktree.
+# /repo itself is not touched, so checks running elsewhere against /repo are not disturbed.   usage: seed_run.sh <patch> <id>...
+P=$(readlink -f "$1"); shift
+WT=$(mktemp -d /tmp/seedrun.XXXXXX); rmdir $WT
+git -C /repo worktree add -q --detach $WT HEAD || exit 2
+trap 'git -C /repo worktree remove --force $WT; git -C /repo worktree prune' EXIT
+( cd $WT && git apply "$P" ) || { echo "patch does not apply"; exit 2; }
+cd "$(dirname "$0")/.."
 for id in "$@"; do
-  out=$(timeout 1500 python3 tools/vcheck.py $id quick 2>&1); rc=$?
+  out=$(VERIF_REPO=$WT timeout 1500 python3 tools/vcheck.py $id ${TIER:-quick} 2>&1); rc=$?
   echo "$id exit=$rc :: $(echo "$out" | grep -E '^VIOLATION' | head -1) :: $(echo "$out" | tail -1)"
 done
-cd /repo && git apply -R $P && git status --short | grep -v _build | head -3
